@@ -50,6 +50,10 @@ type c10wheel struct {
 
 const c10Interval = time.Second // only a unit: the ticker is driven by hand
 
+// c10Frac is added to every delay handed to the wheel (VERIF_FRACNS nanoseconds, below one
+// interval): a delay of d intervals plus a fraction must still fire at T + floor(delay/I) = T + d.
+var c10Frac = time.Duration(kit.EnvInt("VERIF_FRACNS", 0))
+
 func newC10Wheel(n int) (*c10wheel, error) {
 	cw := &c10wheel{tk: newVTicker(), n: n}
 	cw.base = runtime.NumGoroutine()
@@ -185,7 +189,7 @@ func runC10Case(c kit.Case, n int) (v kit.Verdict) {
 		}
 		op := kit.Str(st["op"])
 		var got error
-		k, d := kit.Str(st["k"]), time.Duration(kit.Num(st["d"]))*c10Interval
+		k, d := kit.Str(st["k"]), time.Duration(kit.Num(st["d"]))*c10Interval+c10Frac
 		switch op {
 		case "set":
 			got = cw.w.SetTimer(k, kit.Num(st["v"]), d)
